@@ -23,8 +23,8 @@ typedef struct S_class_tbb__detail__r1__arena ARENA;
 typedef struct S_class_tbb__detail__r1__thread_data TD;
 typedef struct S_class_tbb__detail__r1__task_dispatcher DISP;
 /* zero-initialised memory with the layout allocate_arena uses: [mail_outbox x slots][arena incl. slot 0][slot 1] */
-struct amem { struct S_class_tbb__detail__r1__mail_outbox mb[2]; ARENA a; struct S_class_tbb__detail__r1__arena_slot slot1; u8 pad[512]; };
-struct amem MA, MHOME_E, MHOME_L;          /* the arena under test; the (other) arenas E and L come from */
+struct amem { struct S_class_tbb__detail__r1__mail_outbox mb[2]; ARENA a; struct S_class_tbb__detail__r1__arena_slot slot1; u8 pad[256]; };
+extern struct amem MA; struct amem MHOME_E, MHOME_L;          /* the arena under test; the (other) arenas E and L come from */
 u8 TC[512] __attribute__((aligned(64)));
 DISP SLOTDISP[2], DISP_E, DISP_L;
 TD TD_E, TD_L, TD_W;
@@ -37,6 +37,11 @@ long demand;
 
 void vp_functor(u32 tid) { VP_ASSERT(tid == 0, "functor of an unexpected delegate"); functor_calls++; }
 void vp_done(u32 tid) { done[tid] = 1; if (tid == 0) VP_ASSERT(functor_calls == 1, "execute() returned but its functor did not run exactly once"); }
+/* ptrhooks: the only integer->pointer conversion on these paths is the load of task_arena_base::my_arena (an atomic<arena*> read as a word);
+ * tell the solver which object the word denotes (an integer of unknown provenance would make every later access a case split over all objects) */
+struct amem MA;
+u64 vp_p2i(u8* p) { return (u64)p; }
+u8* vp_i2p(u64 x) { if (x == (u64)(u8*)&MA.a) return (u8*)&MA.a; VP_ASSERT(x == 0, "unexpected integer-to-pointer conversion"); return 0; }
 /* ---- external boundary */
 static TD* cur_td(void) { return vp_cur == 0 ? &TD_E : vp_cur == 1 && HAS_L ? &TD_L : &TD_W; }
 u8* vpx_pthread_getspecific(u32 key) { return (u8*)cur_td(); }            /* governor::get_thread_data(): the calling thread's thread_data */
